@@ -1,6 +1,7 @@
 //! Correspondence harness: runs the *real* essential-base code on line-protocol cases.
 //! `harness run` reads cases on stdin (`<id> <family> <tokens…>`) and prints `<id> <result>`.
 mod fam_asm;
+mod fam_vm;
 mod gen_short;
 mod orc_asm;
 mod parse;
@@ -17,6 +18,9 @@ fn run_line(line: &str) -> String {
     let res = std::panic::catch_unwind(|| {
         let mut t = parse::Toks::new(rest);
         if let Some(r) = fam_asm::run(fam, &mut t) {
+            return r;
+        }
+        if let Some(r) = fam_vm::run(fam, &mut t) {
             return r;
         }
         if let Some(r) = orc_asm::run(fam, &mut t) {
